@@ -100,7 +100,8 @@ func hoResult(w *capWriter) string {
 	case strings.Contains(e, "no previous generator info"):
 		return "no-previous"
 	}
-	return "error:" + e
+	// a refusal whose text is not one of the known ones: the property does not fix error texts - only THAT the call was refused
+	return "refused"
 }
 
 func runHandover(scriptsPath, cfgPath, tracePath, outPath string) {
@@ -399,11 +400,8 @@ func handoverScript(h *HCfg, s *hoScript, idx int, w *tj.Writer) {
 				return
 			}
 			res := hoResult(cw)
-			if st.Op == "enable-badpw" && cw.err != nil && !strings.HasPrefix(res, "error:") {
-				res = "error:" + cw.err.Error()
-			}
-			if st.Op == "enable-badpw" && strings.HasPrefix(res, "error:") {
-				res = "bad-password" // any refusal that is not one of the later checks
+			if st.Op == "enable-badpw" && cw.err != nil {
+				res = "bad-password" // any refusal: the password is looked at before everything else
 			}
 			ev["info"], ev["res"] = in, res
 		case "restart":
